@@ -36,12 +36,14 @@ type C15Op struct {
 	Ensure bool   `json:"ensure,omitempty"` // attach: credit never-funded pools with 1 H first so that they exist
 	Pick   int    `json:"pick,omitempty"`   // detach: if > 0 address the (Pick-1)-th existing attachment instead of (A, P)
 
-	Pref   bool  `json:"pref,omitempty"`   // service: pay from the (A-th) account that has pools attached, if any
-	Delta  int   `json:"delta,omitempty"`  // service: drawable funds are topped up to cost+Delta first (-1, 0, +1); 9 = leave as they are
-	Split  []int `json:"split,omitempty"`  // service: weights of the top-up over own balance and attached pools
-	Sector int   `json:"sector,omitempty"` // read/verify: pool sector; < 0: a root the host does not store
-	Off    int   `json:"off,omitempty"`    // read: leaf offset
-	Len    int   `json:"len,omitempty"`    // read/write: length code
+	AbortAt int    `json:"abort_at,omitempty"` // service: the renter stops right before this step (see rhpx.Script)
+	Mode    string `json:"mode,omitempty"`     // service: close | stall | trunc
+	Pref    bool   `json:"pref,omitempty"`     // service: pay from the (A-th) account that has pools attached, if any
+	Delta   int    `json:"delta,omitempty"`    // service: drawable funds are topped up to cost+Delta first (-1, 0, +1); 9 = leave as they are
+	Split   []int  `json:"split,omitempty"`    // service: weights of the top-up over own balance and attached pools
+	Sector  int    `json:"sector,omitempty"`   // read/verify: pool sector; < 0: a root the host does not store
+	Off     int    `json:"off,omitempty"`      // read: leaf offset
+	Len     int    `json:"len,omitempty"`      // read/write: length code
 }
 
 // C15Case is a sequence over 3 accounts, 2 pools and 2 contracts.
@@ -463,7 +465,17 @@ func (x *c15) service(op C15Op) error {
 	}
 	before := x.snapshot()
 	logFrom := x.H.Log.Len()
-	shouldServe := enough && !unknown && !badToken
+	script := rhpx.Script{AbortAt: op.AbortAt, Mode: op.Mode}
+	lastSendStep := 1
+	if op.Op == "write" {
+		lastSendStep = 2
+	}
+	// the host can act only if every renter message reached it
+	hostHasAll := op.AbortAt == 0 || (op.Mode == rhpx.ModeClose && op.AbortAt > lastSendStep)
+	shouldServe := enough && !unknown && !badToken && hostHasAll
+	if op.AbortAt != 0 {
+		what += fmt.Sprintf(" [renter stops before step %d, %s]", op.AbortAt, op.Mode)
+	}
 
 	var res rhpx.Result
 	var root types.Hash256
@@ -472,7 +484,7 @@ func (x *c15) service(op C15Op) error {
 	case "read":
 		root = rootOf(op.Sector)
 		off := uint64(mod(op.Off, int((proto4.SectorSize-length)/proto4.LeafSize)+1)) * proto4.LeafSize
-		r := x.R.Read(x.Prices, token, root, off, length, rhpx.Script{})
+		r := x.R.Read(x.Prices, token, root, off, length, script)
 		res = r.Result
 		verifyServe = func() error {
 			if uint64(len(r.Data)) != length || r.Resp.DataLength != length {
@@ -490,13 +502,13 @@ func (x *c15) service(op C15Op) error {
 			}
 			return nil
 		}
-		if !r.Done && len(r.Data) > 0 {
+		if !r.Done && !r.Aborted && len(r.Data) > 0 {
 			return fmt.Errorf("%s: data was delivered although the RPC failed", what)
 		}
 	case "verify":
 		root = rootOf(op.Sector)
 		leaf := uint64(mod(op.Off, proto4.LeavesPerSector))
-		r := x.R.Verify(x.Prices, token, root, leaf, rhpx.Script{})
+		r := x.R.Verify(x.Prices, token, root, leaf, script)
 		res = r.Result
 		verifyServe = func() error {
 			want := rhpx.SectorLeaf(rhpx.PoolIndex(root), leaf)
@@ -510,7 +522,7 @@ func (x *c15) service(op C15Op) error {
 		for i := range data {
 			data[i] = byte(i*13 + op.Off + 1)
 		}
-		r := x.R.Write(x.Prices, token, data, length, rhpx.Script{})
+		r := x.R.Write(x.Prices, token, data, length, script)
 		res = r.Result
 		verifyServe = func() error {
 			for _, c := range x.H.Log.Since(logFrom) {
@@ -566,6 +578,8 @@ func (x *c15) service(op C15Op) error {
 	}
 	if !shouldServe {
 		switch {
+		case !hostHasAll:
+			x.cs.Classf("service-abandoned@%d/%s", op.AbortAt, op.Mode)
 		case badToken:
 			x.cs.Class("refused:" + op.Bad)
 		case unknown:
@@ -587,13 +601,17 @@ func (x *c15) service(op C15Op) error {
 		}
 		return x.after(what+" -> "+res.String(), &before)
 	}
-	if !res.Done {
+	if !res.Done && !res.Aborted {
 		return fmt.Errorf("%s: refused although the drawable funds cover the cost: %v", what, res)
 	}
 	if debitSeq < 0 || debit.Failed() || serveSeq < 0 {
 		return fmt.Errorf("%s: served without the debit / sector operation being recorded", what)
 	}
-	if err := verifyServe(); err != nil {
+	if res.Aborted {
+		// the renter did not wait for the answer; the host had the whole
+		// request, so it debits and serves as usual
+		x.cs.Class("service-unread-response")
+	} else if err := verifyServe(); err != nil {
 		return err
 	}
 	if x.debitModel(a, price) {
@@ -845,7 +863,11 @@ func runC15(c C15Case, cs *kit.CaseStats) error {
 
 func genC15(t *rapid.T) C15Case {
 	var c C15Case
-	n := rapid.IntRange(2, 12).Draw(t, "nops")
+	maxOps := 12
+	if kit.Thorough() {
+		maxOps = 24
+	}
+	n := rapid.IntRange(2, maxOps).Draw(t, "nops")
 	init := rapid.IntRange(0, 3).Draw(t, "ninit")
 	for i := 0; i < n; i++ {
 		op := C15Op{C: rapid.IntRange(0, 1).Draw(t, "c"), A: rapid.IntRange(0, 2).Draw(t, "a"), P: rapid.IntRange(0, 1).Draw(t, "p")}
@@ -906,6 +928,14 @@ func genC15(t *rapid.T) C15Case {
 				op.Batch = []int{rapid.IntRange(0, 2).Draw(t, "ba"), rapid.IntRange(0, 1).Draw(t, "bp")}
 			}
 		case "read", "verify", "write":
+			if rapid.IntRange(0, 7).Draw(t, "abort?") == 0 {
+				pts := []faultPoint{{1, rhpx.ModeClose}, {1, rhpx.ModeStall}, {1, rhpx.ModeTrunc}, {2, rhpx.ModeClose}}
+				if op.Op == "write" {
+					pts = faultPoints("write")
+				}
+				p := pts[rapid.IntRange(0, len(pts)-1).Draw(t, "point")]
+				op.AbortAt, op.Mode = p.AbortAt, p.Mode
+			}
 			op.Pref = rapid.IntRange(0, 3).Draw(t, "pref") > 0
 			op.Delta = rapid.SampledFrom([]int{-1, -1, 0, 0, 0, 1, 1, 9}).Draw(t, "delta")
 			ns := rapid.IntRange(0, 3).Draw(t, "nsplit")
@@ -929,7 +959,7 @@ func genC15(t *rapid.T) C15Case {
 
 var c15Prop = kit.Prop[C15Case]{
 	ID:   "C15",
-	Rule: "sequences (2..12) over 3 accounts, 2 pools and 2 contracts against the real rhp4.Server: fund, replenish accounts/pools (targets below, at and above the current balance, mixed keys), attach/detach (valid incl. batches and idempotent repeats; signed by the wrong key; bound to another host key; expired; never-funded pool), read/write/verify with the drawable funds (own balance + attached pools, split by drawn weights) topped up to cost-1, cost or cost+1, unknown sectors, invalid account tokens, balance queries. Oracle from the recorded Contractor/Sectors calls and a balance model: every credit batch is carried by exactly one doubly-signed revision moving the same total from renter to host; every debit carries core's price of the request and precedes the single sector operation; insufficient funds / invalid token / unknown sector => no data, no sector operation, no balance change; replenish leaves max(before, target); rejected attach/detach never reach the contractor; balances and the ordered attachment table (read by value) equal the model (own balance first, then pools in attachment order) after every step. Non-trivial = a debit that drains the account's own balance and continues into a pool, or a request exactly one hasting short; distinct by hash of the case.",
+	Rule: "sequences (2..12, thorough 2..24) over 3 accounts, 2 pools and 2 contracts against the real rhp4.Server: fund, replenish accounts/pools (targets below, at and above the current balance, mixed keys), attach/detach (valid incl. batches and idempotent repeats; signed by the wrong key; bound to another host key; expired; never-funded pool), read/write/verify with the drawable funds (own balance + attached pools, split by drawn weights) topped up to cost-1, cost or cost+1, unknown sectors, invalid account tokens, a renter that stops / stalls / truncates the request or the data stream or does not read the answer, balance queries. Oracle from the recorded Contractor/Sectors calls and a balance model: every credit batch is carried by exactly one doubly-signed revision moving the same total from renter to host; every debit carries core's price of the request and precedes the single sector operation; insufficient funds / invalid token / unknown sector => no data, no sector operation, no balance change; replenish leaves max(before, target); rejected attach/detach never reach the contractor; balances and the ordered attachment table (read by value) equal the model (own balance first, then pools in attachment order) after every step. Non-trivial = a debit that drains the account's own balance and continues into a pool, or a request exactly one hasting short; distinct by hash of the case.",
 	Assumptions: []string{
 		"host = rhp4.Server over the repository's reference EphemeralContractor / EphemeralSectorStore, in-memory transport",
 		"a replenish request may list a key twice (the request validation does not exclude it); the expectation is the statement's: the balance ends at max(before, target); a host that refuses such a request outright is accepted too",
